@@ -22,8 +22,8 @@ Proof. exact refines. Qed.
 Print Assumptions C15_refines.
 
 (* ---- Get u after the last Set u: decided by the bytes of that Set alone ---- *)
-Theorem C15_get_after_set : forall sha enc dec parse pre mid u b d t,
-  let ops := (pre ++ OSet u (Some (Some b, d)) :: mid)%list in
+Theorem C15_get_after_set : forall sha enc dec parse pre mid u e b d t,
+  let ops := (pre ++ OSet u e (Some (Some b, d)) :: mid)%list in
   inj_on sha (urls (ops ++ [OGet u t])) -> roundtrip_on enc dec (ops ++ [OGet u t]) ->
   (forall o, In o pre -> o <> OMkdir u) ->
   (forall o, In o mid -> op_url o <> u) ->
@@ -81,10 +81,10 @@ Print Assumptions C15_never_set_miss.
 
 (* ---- distinct urls never share or overwrite an entry ---- *)
 (* one step: Set u leaves the stored file and the answer of every other url unchanged *)
-Theorem C15_isolated : forall sha enc dec parse (f : fs) u u' bd t,
+Theorem C15_isolated : forall sha enc dec parse (f : fs) u u' e bd t,
   u' <> u -> (sha u' = sha u -> u' = u) ->
-  alookup (file_name sha u') (fst (fst (set sha enc f u bd))) = alookup (file_name sha u') f /\
-  get sha dec parse (fst (fst (set sha enc f u bd))) u' t = get sha dec parse f u' t.
+  alookup (file_name sha u') (fst (fst (set sha enc f u e bd))) = alookup (file_name sha u') f /\
+  get sha dec parse (fst (fst (set sha enc f u e bd))) u' t = get sha dec parse f u' t.
 Proof. exact set_isolated. Qed.
 Print Assumptions C15_isolated.
 
@@ -142,8 +142,8 @@ Print Assumptions C15_corrupt_history.
 
 (* Set of a nil bundle / nil base: an error, nothing written *)
 Theorem C15_set_nil : forall sha enc (f : fs) u,
-  set sha enc f u None = (f, RErr 7, []) /\
-  forall d, set sha enc f u (Some (None, d)) = (f, RErr 8, []).
+  (forall e, set sha enc f u e None = (f, RErr 7, [])) /\
+  forall e d, set sha enc f u e (Some (None, d)) = (f, RErr 8, []).
 Proof. exact set_nil_nothing. Qed.
 Print Assumptions C15_set_nil.
 
@@ -159,19 +159,23 @@ Example C15_example :
   let h3 := "x123456789abcdef0123456789abcdef" in
   let i := mk_input
     [("http://h/a", h1); ("http://h/A", h2); ("../evil", h3)]
-    [(enc_json "X" None, Some ("X", None)); (enc_json "Y" (Some "D"), Some ("Y", Some "D")); ("{", None)]
+    [(enc_json false "X" None, Some ("X", None)); (enc_json false "Y" (Some "D"), Some ("Y", Some "D")); ("{", None);
+     (enc_json true "" None, Some ("", None)); (enc_json false "" None, Some ("", None))]
     [("X", POk "X" (Some 100%Z)); ("Y", POk "Y" (Some 50%Z)); ("D", POk "D" (Some 10%Z))]
-    [OSet "http://h/a" (Some (Some "X", None)); OSet "http://h/A" (Some (Some "Y", Some "D"));
+    [OSet "http://h/a" false (Some (Some "X", None)); OSet "http://h/A" false (Some (Some "Y", Some "D"));
      OGet "http://h/a" 5%Z; OGet "http://h/A" 5%Z; OGet "http://h/A" 20%Z; OGet "http://h/a" 101%Z;
      OGet "../evil" 5%Z; OPut "http://h/a" "{"; OGet "http://h/a" 5%Z; OGet "http://h/A" 5%Z;
-     OSet "../evil" None] in
+     OSet "../evil" false None; OSet "../evil" true (Some (Some "", None)); OGet "../evil" 5%Z;
+     OSet "../evil" false (Some (Some "", None)); OGet "../evil" 5%Z] in
   wf i = true /\
   o_res (model i) = [ROk; ROk; RHit "X" None; RHit "Y" (Some "D"); RMiss 2; RMiss 1;
-                     RMiss 0; RNone; RErr 2; RHit "Y" (Some "D"); RErr 7] /\
+                     RMiss 0; RNone; RErr 2; RHit "Y" (Some "D"); RErr 7; ROk; RErr 3; ROk; RErr 3] /\
+  enc_json true "" None = "{""baseCRL"":""""}" /\ enc_json false "" None = "{""baseCRL"":null}" /\
   inj_on (tab_sha i) (urls (i_ops i)) /\ roundtrip_on enc_json (tab_dec i) (i_ops i) /\
   not_an_entry (tab_dec i) (tab_parse i) "{".
 Proof.
   cbv zeta. split; [vm_compute; reflexivity|]. split; [vm_compute; reflexivity|].
+  split; [vm_compute; reflexivity|]. split; [vm_compute; reflexivity|].
   split; [apply inj_b_on; vm_compute; reflexivity|].
   split; [apply roundtrip_b_on; vm_compute; reflexivity|].
   left; vm_compute; reflexivity.
